@@ -232,10 +232,6 @@ class Ctx:
             if not ok:
                 self.build_ok = False
                 return False, "TRANSLATOR FAILED (fail-closed)\n" + tlog
-            gate = forbidden_scan()
-            if gate:
-                self.build_ok = False
-                return False, "FORBIDDEN CONSTRUCT\n" + "\n".join(gate)
             refresh_coqproject()
             # force the property files to be rebuilt so that Print Assumptions is re-run by this check
             for t in targets:
@@ -253,6 +249,11 @@ class Ctx:
         if r.returncode != 0:
             self.build_ok = False
             return False, log
+        # the gate: no Admitted / Axiom / ... anywhere in the closure of what was just built
+        gate = forbidden_scan(closure_files(targets))
+        if gate:
+            self.build_ok = False
+            return False, "FORBIDDEN CONSTRUCT\n" + "\n".join(gate)
         self.build_ok = True
         # assumptions
         for m in re.finditer(r"^Axioms:\n((?:.+\n)+?)(?=^\S|\Z)", log, flags=re.M):
@@ -358,12 +359,18 @@ def refresh_coqproject():
         subprocess.run(["coq_makefile", "-f", "_CoqProject", "-o", "Makefile"], cwd=COQ, check=True, capture_output=True)
 
 
-def forbidden_scan():
+def forbidden_scan(only=None):
+    """scan the given .v files (paths relative to coq/), or every .v under coq/ when None"""
     bad = []
-    for root, _, files in os.walk(COQ):
-        for fn in files:
-            if fn.endswith(".v"):
-                p = os.path.join(root, fn)
+    todo = []
+    if only is None:
+        for root, _, files in os.walk(COQ):
+            todo += [os.path.join(root, fn) for fn in files if fn.endswith(".v")]
+    else:
+        todo = [os.path.join(COQ, v) for v in only if os.path.exists(os.path.join(COQ, v))]
+    for p in sorted(todo):
+        for _once in (1,):
+            if True:
                 txt = strip_coq_comments(open(p).read())
                 in_section = 0
                 for ln, line in enumerate(txt.splitlines(), 1):
